@@ -32,6 +32,15 @@ impl VoronoiCell {
         }
     }
 
+    /// A [`VoronoiCell`] that was not constructed (partial construction): zero volume and
+    /// centroid, but it knows its own generator index so that it can still be linked to faces.
+    pub(super) fn unconstructed(idx: usize) -> Self {
+        Self {
+            idx,
+            ..Self::default()
+        }
+    }
+
     /// Build a [`VoronoiCell`] from a [`ConvexCell`] by computing the relevant
     /// integrals.
     ///
